@@ -239,3 +239,26 @@ Proof.
   intros o H. pose proof (len_outcome pd_max o H) as L. apply Nat2Z.inj_le in L.
   rewrite outcome_bound_10000 in L. unfold MaxOutcomeLength. lia.
 Qed.
+
+(* ---------------------------------------------------------------- the size arithmetic of the trimming hook *)
+(* AddFromStagingHook measures the observation WITHOUT performables ("Performable":null) and then reasons about the
+   size with k results.  On the wire model the two are related exactly as Model/Observation.v's obs_size assumes:
+   null (4 bytes) is replaced by '[' r1 ',' ... ',' rk ']'. *)
+Lemma len_sep_exact : forall (A : Type) (f : A -> list N) (l : list A),
+  length (sep f l) = fold_right (fun x a => length (f x) + a) 0 l + (length l - 1).
+Proof.
+  intros A f l. induction l as [|x t IH]; [reflexivity|].
+  cbn [sep fold_right length]. destruct t as [|y t'].
+  - cbn. lia.
+  - rewrite app_length. cbn [length]. rewrite IH. cbn [length]. lia.
+Qed.
+
+Lemma obs_size_arithmetic : forall (l : list wres) props hist,
+  l <> [] ->
+  length (enc_obs (mkWObs (Some l) props hist)) + 4 =
+  length (enc_obs (mkWObs None props hist)) + 2 + fold_right (fun r a => length (pr_res r) + a) 0 l + (length l - 1).
+Proof.
+  intros l props hist Hl. unfold enc_obs. cbn [wo_perf wo_props wo_hist pr_opt].
+  rewrite !app_length. unfold pr_list. cbn [length]. rewrite app_length. cbn [length].
+  rewrite len_sep_exact. unfold null. lits. lia.
+Qed.
